@@ -17,6 +17,7 @@ class C15(Check):
     pid = "C15"
     title = "Steady-state results are steady states; absence is reported as failure"
     rules = {
+        "Z4": "(shared with C01) the state handed to the integrator and the columns of what comes back are both in the declaration order of the variables, so a steady state is reported under the right names (A2 of C01)",
         "Z1": "a successful course is returned by integrate_to_steady_state only under the dominating test "
               "`norm(change between consecutive iterates) < tolerance`; the iterate is advanced every step; the loop's fall-through is the failure value",
         "Z3": "the previous iterate is a private copy: a value bound directly to the result of the third-party stepper (which hands out its "
@@ -25,7 +26,7 @@ class C15(Check):
         "Z2": "failure plumbing: the integrator's result goes to the result handler, failures land in Simulator._errors, get_result returns "
               "the first error before looking at frames, Result.default substitutes only for exceptions",
     }
-    floors = {"Z1": 4, "Z2": 4, "Z3": 1}
+    floors = {"Z1": 4, "Z2": 4, "Z3": 1, "Z4": 5}
     decided = [
         "a state is presented as steady only after the convergence test passed; exhaustion of the step budget yields NoSteadyState",
         "a failure value can never be replaced by frames on its way to the caller (and becomes the NaN default in scans, C09/P4)",
@@ -37,6 +38,7 @@ class C15(Check):
     def run(self) -> None:
         self.z1(SCIPY, "Scipy", confirmed=True)
         self.z2()
+        self.borrow("C01", ("A2",), "Z4")
 
     def run_thorough(self) -> None:
         for rel, cls in (("integrators/int_diffrax.py", "Diffrax"), ("integrators/int_assimulo.py", "Assimulo")):
